@@ -71,21 +71,25 @@ def check(ctx: Ctx) -> str:
     loop_tests = {ast.unparse(x.test) for x in ast.walk(bg.node) if isinstance(x, ast.While)}
     ok = len(pushes) == 1 and [ast.unparse(g) for g, pol in guards_of(pushes[0]) if ast.unparse(g) not in loop_tests] == []
     ctx.check(ok, "push:unconditional", "environment:TemplateStream._buffered_generator", "every item pushed", "every item taken from the generator must be appended to the buffer unconditionally (otherwise text is lost)", bg.loc())
-    incs = [n for n in ast.walk(bg.node) if isinstance(n, ast.AugAssign) and ast.unparse(n.target) == "c_size"]
+    # the counter is whatever the inner loop compares with `size` (its name is irrelevant)
+    it = inner.test
+    cnt = ast.unparse(it.left) if isinstance(it, ast.Compare) and len(it.ops) == 1 and isinstance(it.ops[0], ast.Lt) and ast.unparse(it.comparators[0]) == "size" and isinstance(it.left, ast.Name) else None
+    ctx.check(cnt is not None, "loop:bound", "environment:TemplateStream._buffered_generator", "collect until size", f"the collection loop must run while <count> < size (is `{ast.unparse(inner.test)}`)", bg.loc(inner))
+    cnt = cnt or "?"
+    incs = [n for n in ast.walk(bg.node) if isinstance(n, ast.AugAssign) and ast.unparse(n.target) == cnt]
     ok = len(incs) == 1 and ast.unparse(incs[0].value) == "1" and isinstance(incs[0].op, ast.Add)
-    gs = [ast.unparse(g) for g, pol in guards_of(incs[0]) if pol and ast.unparse(g) not in loop_tests] if incs else []
-    ctx.check(ok and gs == [var], "count:non-empty", "environment:TemplateStream._buffered_generator", f"count advances under {gs}",
+    gs = [a for a in astq.guard_atoms(bg.node, incs[0]) if a[0] not in loop_tests and a[0] != "True"] if incs else []
+    ctx.check(ok and gs == [(var, True)], "count:non-empty", "environment:TemplateStream._buffered_generator", f"count advances under {gs}",
               f"the buffered-piece count must advance exactly when the piece is non-empty (`if {var}:`); found guards {gs}: empty pieces would count towards the buffer size and chunks would hold fewer non-empty pieces than requested",
               bg.loc(incs[0]) if incs else bg.loc(), detail={"guards": gs})
-    ctx.check(ast.unparse(inner.test) == "c_size < size", "loop:bound", "environment:TemplateStream._buffered_generator", "collect until size", f"the collection loop must run while c_size < size (is `{ast.unparse(inner.test)}`)", bg.loc(inner))
     ys = [n for n in ast.walk(bg.node) if isinstance(n, ast.Yield)]
     dels = [n for n in ast.walk(bg.node) if isinstance(n, ast.Delete) and "buf" in ast.unparse(n)] + [c for c in astq.calls(bg.node) if astq.callee(c) == "buf.clear"]
     ok = len(ys) == 1 and ast.unparse(ys[0].value) == "concat(buf)" and len(dels) == 1 and ys[0].lineno < dels[0].lineno
     ctx.check(ok, "yield-before-clear", "environment:TemplateStream._buffered_generator", "yield then clear", "the chunk must be yielded (concat(buf)) before the buffer is cleared", bg.loc())
     rs = astq.returns(bg.node)
-    ok = len(rs) == 1 and any(ast.unparse(g) == "not c_size" and pol for g, pol in guards_of(rs[0])) and any(isinstance(h, ast.ExceptHandler) and ast.unparse(h.type) == "StopIteration" for h in astq.ancestors_handlers(rs[0]))
+    ok = len(rs) == 1 and (cnt, False) in astq.guard_atoms(bg.node, rs[0]) and any(isinstance(h, ast.ExceptHandler) and ast.unparse(h.type) == "StopIteration" for h in astq.ancestors_handlers(rs[0]))
     ctx.check(ok, "return:exhausted-empty", "environment:TemplateStream._buffered_generator", "only return", "the generator may stop only on StopIteration with an empty count (a partial last chunk must still be yielded)", bg.loc())
-    rst = [n for n in ast.walk(bg.node) if isinstance(n, ast.Assign) and ast.unparse(n.targets[0]) == "c_size" and ast.unparse(n.value) == "0"]
+    rst = [n for n in ast.walk(bg.node) if isinstance(n, ast.Assign) and ast.unparse(n.targets[0]) == cnt and ast.unparse(n.value) == "0"]
     ctx.check(len(rst) == 2, "count:reset", "environment:TemplateStream._buffered_generator", "count reset per chunk", "the count must be reset after each chunk", bg.loc())
     eb = repo.func("environment:TemplateStream.enable_buffering")
     s = ast.unparse(eb.node)
@@ -94,8 +98,12 @@ def check(ctx: Ctx) -> str:
     ctx.rule("R3", "dump writes every item of the stream, encoded when an encoding is given")
     dp = repo.func("environment:TemplateStream.dump")
     s = ast.unparse(dp.node)
-    ctx.check("(x.encode(encoding, errors) for x in self)" in s and "iterable = self" in s, "dump:iterable", "environment:TemplateStream.dump", "items written", "dump must write every item of the stream (encoded if requested)", dp.loc())
-    ctx.check("real_fp.writelines(iterable)" in s and "for item in iterable:" in s and "real_fp.write(item)" in s, "dump:write", "environment:TemplateStream.dump", "write paths", "both write paths (writelines / write loop) must consume the whole iterable", dp.loc())
+    gens = [g for g in ast.walk(dp.node) if isinstance(g, ast.GeneratorExp) and len(g.generators) == 1 and ast.unparse(g.generators[0].iter) == "self" and not g.generators[0].ifs]
+    enc_ok = len(gens) == 1 and ast.unparse(gens[0].elt) == f"{ast.unparse(gens[0].generators[0].target)}.encode(encoding, errors)"
+    ctx.check(enc_ok and "iterable = self" in s, "dump:iterable", "environment:TemplateStream.dump", "items written", "dump must write every item of the stream (encoded if requested)", dp.loc())
+    loops = [l for l in ast.walk(dp.node) if isinstance(l, ast.For) and ast.unparse(l.iter) == "iterable"]
+    loop_ok = len(loops) == 1 and any(astq.callee(c) == "real_fp.write" and c.args and ast.unparse(c.args[0]) == ast.unparse(loops[0].target) for c in astq.calls(loops[0])) and not any(isinstance(x, (ast.Break, ast.Continue, ast.Return, ast.If)) for x in ast.walk(loops[0]))
+    ctx.check("real_fp.writelines(iterable)" in s and loop_ok, "dump:write", "environment:TemplateStream.dump", "write paths", "both write paths (writelines / write loop) must consume the whole iterable", dp.loc())
     # str(module) joins the pieces kept in the module's private `_body_stream`; exported
     # template names are copied onto the same object, so only the export rule (no name with a
     # leading underscore is ever exported) keeps them from replacing it
